@@ -17,6 +17,7 @@ long cjv_case_id = -1;
 long cjv_op_idx = -1;
 const char *cjv_cur_call;
 volatile int cjv_in_lib;
+volatile int cjv_walking;
 long cjv_violations;
 
 #define PAGE 4096UL
@@ -608,6 +609,13 @@ static void on_fatal_signal(int sig, siginfo_t *si, void *uc_)
     cjv_in_lib = 0;
     fflush(cjv_log);
     cls[0] = 0;
+    if (!was_in_lib && cjv_walking && sig != SIGALRM) {
+        /* a monitor faulted while following the library's own pointers: the structure is corrupt */
+        snprintf(line, sizeof line, "V %ld %ld wf/monitor-fault-on-corrupt-tree call=%s sig=%d addr=%p (walker reached unmapped memory through a library structure)\nX %ld %ld died\n",
+                 cjv_case_id, cjv_op_idx, cjv_cur_call ? cjv_cur_call : "-", sig, addr, cjv_case_id, cjv_op_idx);
+        sig_write(line);
+        _exit(3);
+    }
     if (!was_in_lib && sig != SIGALRM) {
         /* the driver itself crashed: harness failure, never a verdict about the library */
         snprintf(line, sizeof line, "H %ld %ld harness-crash sig=%d addr=%p last_call=%s\n", cjv_case_id, cjv_op_idx, sig, addr, cjv_cur_call ? cjv_cur_call : "-");
@@ -666,6 +674,12 @@ void __asan_on_error(void)
     mon_dying = 1;
     cjv_in_lib = 0;
     fflush(cjv_log);
+    if (!was && cjv_walking) {
+        snprintf(line, sizeof line, "V %ld %ld wf/monitor-fault-on-corrupt-tree call=%s (sanitizer report while a monitor followed a library structure) see-stderr\nX %ld %ld died\n",
+                 cjv_case_id, cjv_op_idx, cjv_cur_call ? cjv_cur_call : "-", cjv_case_id, cjv_op_idx);
+        sig_write(line);
+        return;
+    }
     if (!was) {
         snprintf(line, sizeof line, "H %ld %ld harness-crash sanitizer report outside a library call (last_call=%s)\n", cjv_case_id, cjv_op_idx, cjv_cur_call ? cjv_cur_call : "-");
         sig_write(line);
@@ -763,6 +777,8 @@ static void wf_node(const cJSON *n, int is_member, int depth)
         long i = 0;
         for (; c != NULL; prev = c, c = c->next, i++) {
             if (i > walk_cap) { WBAD("wf/cycle-or-runaway", "%s: sibling chain does not end", walk_what); return; }
+            /* never touch a child before knowing that it is a live block (the monitor must not be the one that crashes) */
+            if (walk_ledger && led_lookup(c, NULL, NULL) != 1) { WBAD("wf/not-live", "%s: child %ld of a container is not a live block (depth %d)", walk_what, i, depth); return; }
             if (prev != NULL && c->prev != prev) { WBAD("wf/prev-mismatch", "%s: child %ld: prev does not mirror next (depth %d)", walk_what, i, depth); return; }
             wf_node(c, (t & 0xFF) == cJSON_Object, depth + 1);
             if (walk_bad) return;
@@ -781,8 +797,13 @@ int wf_check(const cJSON *root, int flags, const char *what)
     walk_cap = walk_ledger ? led.live_blocks + 16 : 50000000L;
     walk_what = what;
     walk_bad = 0;
-    if ((flags & WF_ROOT) && (root->next != NULL || root->prev != NULL)) WBAD("wf/root-links", "%s: root/detached item has sibling links", what);
-    wf_node(root, 0, 0);
+    WALK_BEGIN();
+    if (walk_ledger && led_lookup(root, NULL, NULL) != 1) WBAD("wf/not-live", "%s: root is not a live block", what);
+    else {
+        if ((flags & WF_ROOT) && (root->next != NULL || root->prev != NULL)) WBAD("wf/root-links", "%s: root/detached item has sibling links", what);
+        wf_node(root, 0, 0);
+    }
+    WALK_END();
     return walk_bad;
 }
 
@@ -791,11 +812,23 @@ int wf_check(const cJSON *root, int flags, const char *what)
 
 static long tn_steps, tn_cap, tn_depth;
 
+static int tn_ledger;      /* 1: every pointer is checked against the ledger before it is followed */
+static int tn_live(const void *p, int borrowed_ok)
+{
+    if (!tn_ledger) return 1;
+    if (led_lookup(p, NULL, NULL) == 1) return 1;
+    return borrowed_ok && bor_contains(p);
+}
+
 static int tn_node(bbuf *o, const cJSON *n)
 {
-    int t = n->type, lo = t & 0xFF;
+    int t, lo;
     if (++tn_steps > tn_cap) return -1;
     if (tn_depth > 400000) return -1;
+    if (!tn_live(n, 0)) return -2;
+    t = n->type; lo = t & 0xFF;
+    if (n->string && !tn_live(n->string, (t & cJSON_StringIsConst) != 0)) return -2;
+    if (n->valuestring && !tn_live(n->valuestring, (t & cJSON_IsReference) != 0)) return -2;
     if (n->string) {
         bb_putc(o, (t & cJSON_StringIsConst) ? 'c' : 'k');
         bb_hex(o, n->string, strlen(n->string));
@@ -824,11 +857,11 @@ static int tn_node(bbuf *o, const cJSON *n)
         const cJSON *c;
         size_t at;
         bb_putc(o, lo == cJSON_Array ? 'a' : 'o');
-        for (c = n->child; c; c = c->next) { if (++cnt > tn_cap) return -1; }
+        for (c = n->child; c; c = c->next) { if (++cnt > tn_cap) return -1; if (!tn_live(c, 0)) return -2; }
         bb_printf(o, "%ld;", cnt);
         at = o->n; (void)at;
         tn_depth++;
-        for (c = n->child; c; c = c->next) if (tn_node(o, c) < 0) { tn_depth--; return -1; }
+        for (c = n->child; c; c = c->next) { int rc = tn_node(o, c); if (rc < 0) { tn_depth--; return rc; } }
         tn_depth--;
         break;
     }
@@ -841,11 +874,12 @@ static int tn_node(bbuf *o, const cJSON *n)
 
 int tn_dump(bbuf *out, const cJSON *root)
 {
+    tn_ledger = led_expect_origin != 0;     /* a case is in progress: all library blocks are in the ledger */
     tn_steps = 0;
     tn_depth = 0;
     tn_cap = 4000000L;
     if (root == NULL) { bb_putc(out, '-'); return 0; }
-    return tn_node(out, root);
+    { int rc; WALK_BEGIN(); rc = tn_node(out, root); WALK_END(); return rc; }
 }
 
 static long pre_idx;
@@ -863,7 +897,7 @@ long tn_preorder_index(const cJSON *root, const cJSON *target)
 {
     if (!root || !target) return -1;
     pre_idx = 0;
-    return pre_find(root, target);
+    { long r; WALK_BEGIN(); r = pre_find(root, target); WALK_END(); return r; }
 }
 
 /* ------------------------------------------------------------------------------------------ */
